@@ -2320,6 +2320,9 @@ def m_entry_or(ctx, args, callee):
        r'|^<.* as BorrowMut<.*>>::borrow_mut$|^<.* as AsMut<.*>>::as_mut$', 'generic_deref')
 def m_generic_deref(ctx, args, callee):
     v = ctx.deref(args[0])
+    if 'LazyLock<' in callee and isinstance(v, tuple) and v and v[0] == 'static':
+        from .models_ext import m_lazy_regex
+        return m_lazy_regex(ctx, args, callee)
     if isinstance(v, Str):
         return v
     if isinstance(v, (Seq, Map)):
